@@ -32,6 +32,7 @@ type Run struct {
 	RecCut     bool
 	Dup        bool // same text as an earlier accepted run of this plugin
 	NArgs      int
+	Arities    []int
 }
 
 // decision lookup helpers
@@ -179,7 +180,7 @@ func (s *Sweeper) one(plugin string, newFn *VFunc, cfg sweepConfig, or *Oracle) 
 	in := &Interp{repo: s.repo, plugin: plugin, decls: s.decls, or: or, memo: map[string]int{}, tie: cfg.tie, shape: cfg.shape,
 		arities: cfg.arities, preds: map[string]Value{}, stack: map[*ast.FuncDecl]int{}, imports: map[string]int{}, importUse: map[string]bool{},
 		holes: map[string]*Hole{}}
-	run = &Run{Plugin: plugin, Config: cfg.name}
+	run = &Run{Plugin: plugin, Config: cfg.name, Arities: cfg.arities}
 	finish := func() {
 		run.Decisions = in.decisions
 		run.Requests = in.requests
